@@ -18,20 +18,24 @@ def generate_all():
     cache = {}
     for name, r in spec.items():
         path = os.path.join(REPO, r["file"])
-        info = {"property": r["property"], "file": r["file"], "fn": r["fn"], "outside": r.get("outside", "")}
+        info = {"property": r["property"], "file": r["file"], "fn": r.get("fn") or r.get("item"), "outside": r.get("outside", "")}
         try:
             src = cache.get(path) or rsx.Source(path)
             cache[path] = src
             if r.get("item"):
                 # a local item (struct) declared inside the function, copied verbatim to module level
-                s0, o0, c0 = src.find_fn(r["fn"], r.get("within"), r.get("fn_ordinal", 0))
-                a = src._find_line(r["item"], o0 + 1, c0, 0)
+                if r.get("fn"):
+                    s0, o0, c0 = src.find_fn(r["fn"], r.get("within"), r.get("fn_ordinal", 0))
+                    a = src._find_line(r["item"], o0 + 1, c0, 0)
+                else:
+                    a = src._find_line(r["item"], 0, len(src.text), r.get("item_ordinal", 0))
                 k = src.masked.index("{", a)
                 e = src.match_close(k)
                 text = src.text[a:e + 1]
                 lines = (src.line_of(a), src.line_of(e))
-                code = (f"// GENERATED on every run by /verif/lib/kx.py — verbatim lines {lines[0]}-{lines[1]} of {r['file']} (item inside fn {r['fn']})\n"
-                        f"{r.get('attr', '#[allow(dead_code)]')}\npub {text}\n")
+                vis = "" if r.get("keep_vis") else "pub "
+                code = (f"// GENERATED on every run by /verif/lib/kx.py — verbatim lines {lines[0]}-{lines[1]} of {r['file']} (item `{r['item']}`)\n"
+                        f"{r.get('attr', '#[allow(dead_code)]')}\n{vis}{text}\n")
                 info.update(ok=True, lines=list(lines), nlines=text.count("\n") + 1)
                 pth = os.path.join(GEN, name + ".rs")
                 old = open(pth).read() if os.path.exists(pth) else None
